@@ -400,6 +400,13 @@ func (x *Exec) assumeLoaded(st *State, v *Term, T types.Type) {
 		x.addFactRaw(x.tt.Lt(x.tt.UF("birth$", "Int", v), st.clk))
 	case *types.Slice:
 		x.addFactRaw(x.tt.Lt(x.tt.UF("birth$", "Int", x.sArr(v)), st.clk))
+		if len(x.prog.Cons.ValidatorTypes) > 0 {
+			x.arrayEmbedders()
+			if et := T.Underlying().(*types.Slice).Elem(); !x.arrEmbElem[typeName(et)] {
+				// no struct of the package embeds an array of this element type: the backing array is an allocation of its own
+				x.addFactRaw(x.tt.Or(x.tt.Eq(x.sArr(v), x.tt.IntLit(0)), x.tt.UF("isbase$", "Bool", x.sArr(v))))
+			}
+		}
 	case *types.Interface:
 		if v.Sort == "Val" {
 			x.assumeValExisting(st, v)
@@ -492,6 +499,18 @@ func (x *Exec) store(st *State, p *Term, T types.Type, val Value) {
 func (x *Exec) recordWrite(heap string, idx *Term) {
 	for _, r := range x.recorders {
 		r.writes = append(r.writes, writeRec{heap, idx})
+	}
+	if idx != nil && idx.Kind == KApp && idx.Op == "ite" && idx.Args[2] == x.tt.IntLit(-1) {
+		// guarded modifies target (when(cond, lv)): the write happens only under cond
+		saved := x.curPC
+		if saved == nil {
+			x.curPC = idx.Args[0]
+		} else {
+			x.curPC = x.tt.And(saved, idx.Args[0])
+		}
+		x.checkWrite(heap, idx.Args[1])
+		x.curPC = saved
+		return
 	}
 	x.checkWrite(heap, idx)
 }
